@@ -97,6 +97,9 @@ OpMonitors(r, c) ==
           {<<"BackupOverwrote", key.t>>})
   \cup If(c.fn = "backup" /\ ok /\ r.verb \in {"remove_file", "remove_dir_all"},
           {<<"BackupRemoved", key.t>>})
+  \* a tail written now says how many hunks the version has (only old archives lack the count)
+  \cup If(c.fn = "backup" /\ ok /\ r.verb = "write" /\ key.t = "Tail" /\ r.dec.st = "ok" /\ r.dec.count = -1,
+          {<<"Format", <<"tail-written-without-hunk-count", key.b, -1>> >>})
   \* a new version's id is above every band directory that exists (a directory created by a
   \* backup racing with this call, after this call began, is not "existing" in that sense)
   \cup If(c.fn = "backup" /\ ok /\ r.verb = "create_dir" /\ key.t = "BandDir"
